@@ -110,7 +110,11 @@ func markRunInner(c Case, w *Worker, collect bool) (res Result) {
 	} {
 		needles = append(needles, needle{"clear-text metadata " + strings.TrimRight(s, "\x00"), []byte(s)})
 	}
-	gen := NewGen(r, GenOpts{Cfg: cfg, Comps: nameMarks, Symlinks: true, Batched: true, MaxLen: 3000})
+	maxLen := 3000
+	if c.Seed%6 == 0 {
+		maxLen = 300000 // content beyond the first chunk / window of the codecs
+	}
+	gen := NewGen(r, GenOpts{Cfg: cfg, Comps: nameMarks, Symlinks: true, Batched: true, MaxLen: maxLen})
 	tree, _ := WalkTree(rig.FS, false)
 	scanned := 0
 	checkTape := func() bool {
@@ -138,7 +142,16 @@ func markRunInner(c Case, w *Worker, collect bool) (res Result) {
 			viol("scan", "tape is not iterable: %v", err)
 			return false
 		}
+		seenCT := map[string]int64{}
 		for _, rc := range recs {
+			// equal plaintext headers must not give equal ciphertext (a fixed nonce / file key would reveal which records are equal)
+			if ct := rc.Outer.PAXRecords["STFS.EmbeddedHeader"]; ct != "" {
+				if prev, dup := seenCT[ct]; dup {
+					viol("deterministic-ciphertext", "the encrypted headers of the records at byte %d and %d are identical", prev, rc.Off)
+					return false
+				}
+				seenCT[ct] = rc.Off
+			}
 			h := rc.Outer
 			var keys []string
 			for k := range h.PAXRecords {
@@ -236,6 +249,31 @@ func markRunInner(c Case, w *Worker, collect bool) (res Result) {
 			}
 			frig.Close()
 			res.count("foreign_key_rebuilds_rejected", 1)
+		}
+	}
+	// the documented open sequence with a different private key must not show any name either
+	fd2 := w.NewDir("c09g")
+	if err := CloneDir(dir, fd2, false); err == nil {
+		fcfg := cfg
+		fcfg.Foreign = true
+		if frig, err := NewRig(fd2, fcfg); err == nil {
+			ops = append(ops, "Initialize + walk with a different private key")
+			if err := frig.Init(); err == nil {
+				if t, err := WalkTree(frig.FS, false); err == nil {
+					for pth := range t {
+						for _, m := range nameMarks {
+							if strings.Contains(pth, m) {
+								viol("foreign-key|open", "a filesystem opened with a different private key lists %q", pth)
+								frig.Close()
+								return
+							}
+						}
+					}
+				}
+			}
+			frig.LocksSettled()
+			frig.Close()
+			res.count("foreign_key_opens_checked", 1)
 		}
 	}
 	res.count("records_on_tape", int64(scanned))
